@@ -152,3 +152,57 @@ def hyp_drive(
 
 def replay_case(prop: str, case: Any, body: Callable[[Any], list[Violation]]) -> list[Violation]:
     return body(case)
+
+
+# ------------------------------------------------------------------------------------------------
+# stateful machines
+
+
+def machine_drive(
+    prop: str,
+    make_machine,  # (collector, tally) -> RuleBasedStateMachine subclass
+    *,
+    tally: Tally,
+    max_examples: int,
+    steps: int,
+    seed: int,
+    kind: str,
+    shrink_budget_s: float = 45.0,
+    max_rounds: int = 3,
+) -> list[Failure]:
+    """Run a rule-based state machine. The machine reports through collector.handle(case, violations)
+    from its invariants (raising PropertyViolated for fresh signatures) and must do nothing when
+    collector.quiet() is true."""
+    from hypothesis.stateful import run_state_machine_as_test
+
+    coll = Collector(prop, tally, kind, shrink_budget_s)
+    remaining = max_examples
+    for rnd in range(max_rounds):
+        if remaining <= 0:
+            break
+        before = tally.cases
+        cls = make_machine(coll, tally)
+        seeded = hypothesis.seed(seed + rnd * 15485863)(cls)
+        try:
+            run_state_machine_as_test(
+                seeded, settings=base_settings(max(1, remaining), stateful_step_count=steps, phases=[Phase.generate, Phase.shrink])
+            )
+            break
+        except PropertyViolated:
+            pass
+        except hypothesis.errors.Flaky:
+            if coll.target is None:
+                raise HarnessError("Hypothesis reported flakiness without a recorded failure:\n" + traceback.format_exc())
+        except hypothesis.errors.FailedHealthCheck as e:
+            raise HarnessError(f"health check failed (generator problem, not a defect): {e}")
+        except hypothesis.errors.HypothesisException as e:
+            if coll.target is None:
+                raise HarnessError(f"hypothesis error: {type(e).__name__}: {e}")
+        except BaseExceptionGroup as eg:  # noqa: F821
+            if coll.target is None:
+                raise HarnessError("unexpected exception group:\n" + "".join(traceback.format_exception(eg)))
+        if coll.target is None:
+            break
+        remaining -= max(1, tally.cases - before)
+        coll.next_round()
+    return list(coll.best.values())
